@@ -586,13 +586,18 @@ def select__distinct_values(self: XPathFunction, context: ta.ContextType = None)
                         yield value
                         nan = True
                 elif all(not math.isclose(value, x, rel_tol=1E-18, abs_tol=0)
-                         for x in results if isinstance(x, (int, Decimal, float))):
+                         for x in results
+                         if isinstance(x, (int, Decimal, float)) and not isinstance(x, bool)):
                     yield value
                     results.append(value)
+                continue
 
-            elif value not in results:
+            # xs:untypedAtomic is compared as xs:string, xs:boolean only with xs:boolean
+            other = value.value if isinstance(value, UntypedAtomic) else value
+            if not any(isinstance(x, bool) is isinstance(other, bool) and x == other
+                       for x in results):
                 yield value
-                results.append(value)
+                results.append(other)
 
     if len(self) < 2:
         collation = self.parser.default_collation
